@@ -19,6 +19,14 @@ class Broken(Exception):
     """The machinery failed; exit 2."""
 
 
+class GeneratedCodeBroken(Broken):
+    """The bindings the working tree's generator just produced from the VT family do not compile (every error is inside a
+    generated file): behaviour of the code under test, reported as a violation by check.py."""
+    def __init__(self, msg, files):
+        super().__init__(msg)
+        self.files = files
+
+
 def log(*a):
     print(*a, file=sys.stderr, flush=True)
 
@@ -31,10 +39,37 @@ def ensure_disk(min_free_gb=30):
         st = os.statvfs(cache)
         free = st.f_bavail * st.f_frsize / 1e9
         if free < min_free_gb:
-            log("disk: %.1f GB free -- emptying the go build cache" % free)
-            subprocess.run(["go", "clean", "-cache"], env=GOENV, stdout=subprocess.DEVNULL, stderr=subprocess.DEVNULL)
+            # other checks may be compiling right now: only entries nobody used for hours go (the go tool refreshes the mtime
+            # of an entry at most an hour after it was last used); emptying the whole cache is the last resort
+            log("disk: %.1f GB free -- trimming the go build cache" % free)
+            cutoff = time.time() - 3 * 3600
+            for root, ds, fs in os.walk(cache):
+                for f in fs:
+                    fp = os.path.join(root, f)
+                    try:
+                        if os.path.getmtime(fp) < cutoff:
+                            os.remove(fp)
+                    except OSError:
+                        pass
+            st = os.statvfs(cache)
+            if st.f_bavail * st.f_frsize / 1e9 < 8:
+                log("disk: still nearly full -- emptying the go build cache")
+                subprocess.run(["go", "clean", "-cache"], env=GOENV, stdout=subprocess.DEVNULL, stderr=subprocess.DEVNULL)
     except Exception as e:      # never let housekeeping decide a verdict
         log("disk check failed:", e)
+
+
+def go_run(cmd, cwd, timeout=None):
+    """Runs a go tool command; when it fails because entries of the shared build cache vanished under it (another process
+    trimmed or emptied the cache), the command is simply run again -- the tool rebuilds what is missing."""
+    p = None
+    for attempt in range(4):
+        p = subprocess.run(cmd, cwd=cwd, env=GOENV, stdout=subprocess.PIPE, stderr=subprocess.STDOUT, text=True, errors="replace", timeout=timeout)
+        if p.returncode == 0 or not ("go-build" in p.stdout and "no such file or directory" in p.stdout):
+            break
+        log("go build cache entries vanished during the build: retrying (%d)" % (attempt + 1))
+        time.sleep(2)
+    return p
 
 
 def no_space(text):
@@ -216,9 +251,14 @@ def go_module(scr, name, gen, race=False, tags="verif", pkg_subdir=None, extra_s
     if race:
         cmd.append("-race")
     cmd.append(".")
-    p = subprocess.run(cmd, cwd=d, env=GOENV, stdout=subprocess.PIPE, stderr=subprocess.STDOUT, text=True)
+    p = go_run(cmd, d)
     if p.returncode != 0:
-        # Distinguish "the repository does not build" from "the harness is broken": try building the repo packages.
+        no_space(p.stdout)
+        import re as _re
+        errs = _re.findall(r"^(?:\./)?(\S+?\.go):\d+:\d+: (.*)$", p.stdout, _re.M)
+        if errs and all(f.startswith("gen/") and f.endswith(".gr.go") for f, _ in errs) and "build cache" not in p.stdout and "go-build" not in p.stdout:
+            raise GeneratedCodeBroken("the bindings generated from the VT family (%s generator) do not compile:\n%s" % (gen, p.stdout[-2000:]),
+                                      sorted(set(f for f, _ in errs)))
         raise Broken("go build of harness %s (%s) failed:\n%s" % (name, gen, p.stdout[-4000:]))
     return out
 
